@@ -89,6 +89,9 @@ pub enum Op {
     Untracked { d: u8, c: u8 },
     Yield,
     Ret { s: u8 },
+    /// saturation short-circuit: if r[s] is the top of the lattice (m-1) return top immediately.
+    /// Monotone (top dominates every alternative) but makes the remaining calls value-dependent.
+    RetIfTop { s: u8 },
 }
 
 #[derive(Clone, Debug, PartialEq, Eq, Hash, Serialize, Deserialize)]
@@ -189,6 +192,12 @@ impl Program {
                         join(&mut st[tgt], cur);
                     }
                     Op::Ret { .. } => continue,
+                    Op::RetIfTop { .. } => {
+                        // only meaningful (and only generated) in fixpoint blocks
+                        if self.nodes.iter().any(|x| x.kind == Kind::Fb) {
+                            return false;
+                        }
+                    }
                     _ => {}
                 }
                 join(&mut st[pc + 1], out);
@@ -443,6 +452,12 @@ pub fn run_body<H: Host>(
             Op::Ret { s } => {
                 ret = Some(r[*s as usize]);
                 break;
+            }
+            Op::RetIfTop { s } => {
+                if r[*s as usize] == m - 1 {
+                    ret = Some(m - 1);
+                    break;
+                }
             }
         }
     }
